@@ -418,6 +418,15 @@ func run(r *ev.Run) {
 	noListen6 := doc{expect: map[int]*section{6: {plugins: one}}, skipLis: map[int]bool{6: true}}
 	noListen6.text = "server6:\n" + pluginsYAML(one)
 	eval(r, noListen6, "listen-absent/v6")
+	// a section that is present but is not a mapping with a plugins list (scalar, list, empty
+	// map), alone and next to a valid section of the other family: no plugins section => rejected
+	valid6 := "server6:\n  listen: '[2001:db8::1]'\n" + pluginsYAML(one)
+	valid4 := "server4:\n  listen: 192.0.2.1\n" + pluginsYAML(one)
+	for _, x := range []string{"false", "disabled", "0", "''", "[plugins]", "{}", "{listen: 192.0.2.1}"} {
+		eval(r, doc{text: "server4: " + x + "\n", reject: true}, "section-not-a-plugin-mapping/alone")
+		eval(r, doc{text: "server4: " + x + "\n" + valid6, reject: true}, "section-not-a-plugin-mapping/v4-next-to-valid-v6")
+		eval(r, doc{text: valid4 + "server6: " + x + "\n", reject: true}, "section-not-a-plugin-mapping/v6-next-to-valid-v4")
+	}
 	for name, t := range map[string]string{"empty-file": "", "comment-only": "# nothing\n", "other-key": "foo: bar\n", "server4-null": "server4:\n", "not-yaml": "{{{{", "tab-indent": "server4:\n\tplugins:\n"} {
 		eval(r, doc{text: t, skipAll: true}, "degenerate/"+name)
 	}
